@@ -85,7 +85,7 @@ def rand_array(rng, dt, shape):
     return np.array(vals, dtype=dt).reshape(shape)
 
 
-def gen_mesh_spec(rng, dim=None, with_orphans=True):
+def gen_mesh_spec(rng, dim=None, with_orphans=True, point_cloud=False):
     dim = dim or rng.choice([1, 2, 3])
     npts = rng.randint(2, 9)
     pdt = rng.choice(FDT)
@@ -99,6 +99,8 @@ def gen_mesh_spec(rng, dim=None, with_orphans=True):
     npts = len(pts)
     used = npts if not with_orphans or npts < 3 or rng.random() < 0.6 else npts - 1
     types = rng.sample([1, 3, 5, 8, 9, 10, 11, 12, 13, 14, 7, 22], rng.randint(1, 3))
+    if point_cloud:
+        types = []          # points and point fields only, no cell at all
     kpoly = rng.randint(3, 5)
     cells = []
     for t in types:
@@ -463,8 +465,10 @@ def scenario(rng):
                     rng.choice([None, "zlib"]), 64, rng.choice(["UInt32", "UInt64"]), "<" if kind == "read_LE" else ">")
         return {"kind": kind, "cfg": cfg.as_dict(), "ds": ds}
     dim = rng.choice([1, 2, 3])
-    ms = gen_mesh_spec(rng, dim)
+    ms = gen_mesh_spec(rng, dim, point_cloud=(kind == "plain" and rng.random() < 0.15))
     ps, cs = gen_field_specs(rng, dim), gen_field_specs(rng, dim)
+    if not ms["cells"]:
+        cs = []
     spec = {"kind": kind, "A": gen_fields_serial(rng, ms, ps, cs)}
     if kind == "merged":
         ms2 = {"dim": dim, "points": ms["points"] + np.array([0.5] + [0.0] * (dim - 1), dtype=ms["points"].dtype), "cells": ms["cells"]}
@@ -725,7 +729,7 @@ def run(ctx):
                 "scalar/vector/tensor/(n,1) shapes, extreme values), plain / sorted / stripped / extended / merged / diffed / read from LE and BE "
                 "files / rewritten; tables with float / int / str columns.  non-trivial = at least one field or a transformation")
     return ctx.finish(
-        assumptions=["meshes have at least one point and one cell of every listed type (the writer refuses empty arrays)",
+        assumptions=["meshes have at least one point; a listed cell type has at least one cell (meshes without any cell — point clouds — are generated for the plain round trip)",
                      "csv: names and string cells without delimiter / newline, non-empty, not parseable as numbers (quote characters included) "
                      "(column typing int / float / str is numpy's)", "str(float) / float(str) round trip is an oracle"],
         trusted=["harness/c13.py, harness/c05.py (generators), harness/vtkenc.py", "xml.etree for locating the DataArray elements of written files"])
